@@ -68,23 +68,38 @@ class C08(Prop):
             m = rng.randint(2, 4); surplus = rng.randint(1, 3)
             sys = gs.gen_system(rng, mrange=(m, m), nrange=(m + surplus, m + surplus), finite_ub=True)
             nn = sys["n"]; lb, ub = sys["lb"], sys["ub"]
+            held = False
+            if surplus >= 2 and rng.random() < 0.35:
+                # a background light held at a fixed non-zero level (lb == ub there); still a member of every total / variance
+                j = rng.randrange(nn); lbh = np.array(lb, dtype=float); ubh = np.array(ub, dtype=float)
+                lbh[j] = ubh[j] = float(np.round(ubh[j] * rng.choice([0.25, 0.5]) * 16) / 16) or 0.25
+                if gs.well_scaled(sys["A"], lbh, np.where(ubh > lbh, ubh, lbh + 1e-9), sys["K"], sys["baseline"]):
+                    sys = dict(sys, lb=lbh, ub=ubh); lb, ub = lbh, ubh; held = True
             x = np.array([lb[i] + (ub[i] - lb[i]) * rng.randint(2, 14) / 16 for i in range(nn)])
             b = gs.rel_capture(sys, x)
-            opt = rng.choice(["l2", "min", "max", "var", "num", "vec"])
+            opt = rng.choice(["l2", "min", "max", "var", "num", "vec"] + (["num", "var", "num", "var"] if held else []))
             if opt == "num":
-                opt = float(np.round(x.sum() * rng.choice([0.5, 1.0, 1.5]) * 8) / 8)
+                # requested totals: attainable (the total of an interior solution) or beyond the attainable range
+                opt = float(np.round(x.sum() * (1.0 if held else rng.choice([0.5, 1.0, 1.0, 1.5])) * 8) / 8)
             elif opt == "vec":
                 # requested intensities: inside the bounds, or partly beyond them (the closest feasible point is still well defined)
                 opt = [float(lb[i] + (ub[i] - lb[i]) * rng.randint(-8, 24) / 16) for i in range(nn)] if rng.random() < 0.5 else \
                       [float(lb[i] + (ub[i] - lb[i]) * rng.randint(0, 16) / 16) for i in range(nn)]
             w = [1.0] * m if rng.random() < 0.5 else [rng.randint(2, 8) / 4 for _ in range(m)]
+            # intensities in units 2^30 times larger (sources calibrated per Watt instead of per nW): exact rescaling, asked of the linear goals only
+            # (the quadratic goals are below the solver's absolute accuracy in such units even on the unchanged tree: observation O-1 in DESIGN)
+            usc = -30 if (opt in ("min", "max") and not held and rng.random() < 0.4) else 0
             cases.append({"sys": {k: (v.tolist() if isinstance(v, np.ndarray) else v) for k, v in sys.items()}, "b": b.tolist(), "w": w,
-                          "opt": opt, "l2_eps": rng.choice([1e-6, 1e-5, 1e-4, 1e-3]),
-                          "kind": "%s/surplus%d/K-%s" % (opt if isinstance(opt, str) else ("vec" if isinstance(opt, list) else "num"), surplus, sys["Kkind"])})
+                          "opt": opt, "l2_eps": rng.choice([1e-6, 1e-5, 1e-4, 1e-3]), "usc": usc,
+                          "kind": "%s/surplus%d/K-%s%s%s" % (opt if isinstance(opt, str) else ("vec" if isinstance(opt, list) else "num"), surplus, sys["Kkind"],
+                                                            "/held" if held else "", "/unit2^%d" % usc if usc else "")})
         return cases
 
     def run_impl(self, case):
         sys = C04.sysnp(case)
+        u = 2.0 ** case.get("usc", 0)
+        if u != 1.0:
+            sys = dict(sys, A=sys["A"] / u, lb=sys["lb"] * u, ub=sys["ub"] * u)
         est = gs.make_estimator(sys, w=np.array(case["w"]))
         opt = case["opt"]
         optin = np.array(opt) if isinstance(opt, list) else opt
@@ -93,7 +108,7 @@ class C08(Prop):
         gs.warm(lambda: est.fit_underdetermined(Bw, underdetermined_opt=optin, l2_eps=(1e-2 if case["l2_eps"] < 1e-3 else 1e-6), **HI))
         gs.warm(lambda: gs.make_estimator(gs.sibling(sys), w=np.array(case["w"])).fit_underdetermined(Bw + 0.75, underdetermined_opt=optin, l2_eps=case["l2_eps"], **HI))
         X, Bp = est.fit_underdetermined(np.asarray(case["b"])[None], underdetermined_opt=optin, l2_eps=case["l2_eps"], **HI)
-        return {"X": np.asarray(X, dtype=float)[0].tolist(), "Bpred": np.asarray(Bp, dtype=float)[0].tolist()}
+        return {"X": (np.asarray(X, dtype=float)[0] / u).tolist(), "Bpred": np.asarray(Bp, dtype=float)[0].tolist()}
 
     def prep(self, case, out):
         if "_p" in case:
